@@ -1,7 +1,8 @@
 (* C02 - Component storage behaves as a map from (entity, component type) to last value.  (partial)
    Proved: the row merge of move_entity - the only place where stored values change column or
-   archetype - conserves the tagged values exactly.  The world-level refinement to a finite
-   map is checked by the correspondence (full get matrix after every op), not yet proved. *)
+   archetype - conserves the tagged values exactly; on every consistent world (WInv, an invariant
+   of every reachable state: Props/C17.v) each built-in effect succeeds and is exactly the map
+   operation on  abs : entity -> component -> option value  (last part of this file). *)
 From Coq Require Import List NArith Permutation.
 Require Import EV.Base EV.Query EV.World EV.ArchProofs.
 
@@ -41,3 +42,52 @@ Theorem c02_archetype_move_touches_no_other_entity :
                (forall c, abs w' e c = row_col da dvals c).
 Proof. exact move_entity_ok_core. Qed.
 Print Assumptions c02_archetype_move_touches_no_other_entity.
+
+Require Import EV.Effects EV.Reach.
+
+(* Insert on a consistent world: cannot fail, the world stays consistent, the target reads back the
+   new value for that component, every other component of the target, every component of every
+   other entity and the set of live entities are unchanged *)
+Theorem c02_insert_is_the_map_update :
+  forall (w : world) (e : key) (loc : eloc) (c : N) (ev : evv),
+    WInv w -> sm_get e (w_ents w) = Some loc ->
+    exists w', builtin_effect (KInsert c) ev loc w = ROk tt w' /\ WInv w' /\
+      abs w' e c = Some (ev_ser ev, ev_val ev) /\ (forall c', c' <> c -> abs w' e c' = abs w e c') /\
+      (forall k c', k <> e -> abs w' k c' = abs w k c') /\ same_dom (w_ents w) (w_ents w').
+Proof. exact insert_effect_map. Qed.
+Print Assumptions c02_insert_is_the_map_update.
+
+Theorem c02_remove_is_the_map_delete :
+  forall (w : world) (e : key) (loc : eloc) (c : N) (ev : evv),
+    WInv w -> sm_get e (w_ents w) = Some loc ->
+    exists w', builtin_effect (KRemove c) ev loc w = ROk tt w' /\ WInv w' /\
+      abs w' e c = None /\ (forall c', c' <> c -> abs w' e c' = abs w e c') /\
+      (forall k c', k <> e -> abs w' k c' = abs w k c') /\ same_dom (w_ents w) (w_ents w').
+Proof. exact remove_effect_map. Qed.
+Print Assumptions c02_remove_is_the_map_delete.
+
+(* Despawn: the only possible failure is the exhaustion of the entity slots while the pending
+   reservations are materialised; otherwise the target is gone and every other entity that
+   existed still exists with every component unchanged; ids that did not exist have no component *)
+Theorem c02_despawn_deletes_exactly_the_target :
+  forall (w : world) (e : key) (loc : eloc) (ev : evv),
+    WInv w -> sm_get e (w_ents w) = Some loc ->
+    match builtin_effect KDespawn ev loc w with
+    | ROk _ w' => WInv w' /\ sm_get e (w_ents w') = None /\
+                  (forall k, k <> e -> sm_get k (w_ents w) <> None -> sm_get k (w_ents w') <> None /\ forall c, abs w' k c = abs w k c) /\
+                  (forall k, k <> e -> sm_get k (w_ents w) = None -> forall c, abs w' k c = None)
+    | RFail f w' => f = FPanic 5 /\ ext_by_spawn w w'
+    end.
+Proof. exact despawn_effect_map. Qed.
+Print Assumptions c02_despawn_deletes_exactly_the_target.
+
+(* Spawn (materialising reservations): new entities have no components, nothing else changes *)
+Theorem c02_spawn_adds_component_less_entities :
+  forall (w : world) (ev : evv) (loc : eloc),
+    WInv w ->
+    match builtin_effect KSpawn ev loc w with
+    | ROk _ w' => ext_by_spawn w w'
+    | RFail f w' => f = FPanic 5 /\ ext_by_spawn w w'
+    end.
+Proof. exact spawn_effect_map. Qed.
+Print Assumptions c02_spawn_adds_component_less_entities.
